@@ -16,7 +16,7 @@ import traceback
 
 ROOT = os.path.dirname(os.path.dirname(os.path.abspath(__file__)))
 sys.path.insert(0, ROOT)
-sys.path.insert(0, "/repo")
+sys.path.insert(0, os.environ.get("VERIF_REPO", "/repo"))
 
 from harness import pipeline as P          # noqa: E402
 from harness import families as F         # noqa: E402
